@@ -18,6 +18,7 @@ IHYP = ['asinh', 'acosh', 'atanh', 'acoth', 'asech', 'acsch']
 ONE = TRIG + ITRIG + HYP + IHYP + ['exp', 'log', 'abs', 'sign', 'floor', 'ceiling', 'truncate', 'conjugate', 'gamma', 'loggamma', 'erf',
                                    'erfc', 'lambertw', 'dirichlet_eta', 'zeta', 'primepi', 'primorial', 'digamma', 'trigamma']
 PI = K('pi')
+REAL_ONLY = ('atan2', 'max', 'min', 'floor', 'ceiling', 'truncate', 'primepi', 'primorial', 'kronecker_delta', 'levi_civita')
 
 
 def pimul(q):
@@ -95,6 +96,8 @@ def numeric_grid(rng, full):
     xargs = [I(0), I(1), I(2), FR(Fraction(1, 2)), I(-1)]
     for s in sargs:
         for x in xargs:
+            if x == I(0) and (s[0] == 'rat' and int(s[1]) < 0 or s[0] == 'int' and int(s[1]) <= 0):
+                continue  # gamma(s, 0) for Re s <= 0 is a divergent integral: zoo vs mpmath's 0 is a convention, not judged
             out.append(('lowergamma', s, x))
             out.append(('uppergamma', s, x))
     bargs = [I(1), I(2), I(3), FR(Fraction(1, 2)), FR(Fraction(3, 2)), FR(Fraction(-1, 2)), I(0), I(-1), FR(Fraction(1, 3)), FR(Fraction(2, 3)), I(5)]
@@ -287,6 +290,7 @@ class C(Check):
             sv += _value.judge_items(part, self.seed, kind=kind)
         trees = {c: t for c, _, t, _ in num_items}
         trees.update({c: t for c, _, t, _ in sym_items})
+        cands = []
         for cid, v, d in nv + sv:
             self.evaluations += 1
             self.count('verdict:' + v)
@@ -304,6 +308,29 @@ class C(Check):
                 if v == 'unsupported':
                     self.count('oracle-unsupported:' + str(d)[:30])
                 continue
+            cands.append((cid, rcp))
+        # fresh-process confirmation of all candidates in one batch; shrinking only for the first member of each family
+        fres, _ = run_cases('asan', [(cid, [('emit', r)]) for cid, r in cands], tag='c08c', jobs=min(NCPU, max(1, len(cands) // 4)))
+        seen_fam = set()
+        for cid, rcp in cands:
+            r = fres.get(cid)
+            if r is None or r.status != 'ok' or r.s(0) is None or r.s(0).st != 'ok':
+                self.inconclusive += 1
+                continue
+            t = r.s(0).v['t']
+            if not oracle_e.symbols_of(rcp):
+                k, v, d = _judge(('k', rcp, t, self.seed + 5))
+            else:
+                k, v, d = _value.judge_items([('k', rcp, t, None)], self.seed + 5, kind='real' if rcp[0] in REAL_ONLY else 'complex')[0]
+            if v != 'diff':
+                self.inconclusive += 1
+                continue
+            fam = family_of(rcp, t, d)
+            if fam is not None and (rcp[0], fam) in seen_fam:
+                self.violation(dict(clause='value', fn=rcp[0], shape=gen.recipe_str(_shape(rcp)), family=fam),
+                               dict(recipe=gen.recipe_str(rcp), result=r.s(0).v['s'], detail=d, program=['(emit %s)' % gen.recipe_str(rcp)], config='asan'))
+                continue
+            seen_fam.add((rcp[0], fam))
             self._confirm(rcp, cid.startswith('g'))
         self.min_evals = 2000
 
